@@ -117,8 +117,8 @@ L2 == Leaf("b", <<>>, AStr, Nil)
 L3 == Leaf("c", <<"y", "z">>, Nil, E("e"))
 
 Leaves == {L1, L2, L3}
-Subs == {<<>>, <<L1>>, <<L1, Nil>>, <<L2, L3>>, <<Nil>>}
-Vals == {<<>>, <<L1>>, <<L3, L2>>}
+Subs == {<<>>, <<L1>>, <<L1, Nil>>, <<Nil, L1>>, <<L2, L3>>, <<L3, L2, L1>>, <<Nil>>}
+Vals == {<<>>, <<L1>>, <<L3, L2>>, <<L2, L3>>, <<L1, L2, L3>>}
 Anys == {Nil, AStr, ANode(L1), APtr(L3), APtr(Nil)}
 PPs == {Nil, PP(Nil), PP(L1)}
 Nests == {<<>>, <<<<"p">>, <<>>>>}
@@ -140,8 +140,8 @@ Deep == {Mid(Mid(L1, <<L2>>, <<>>, Nil, Nil, <<>>, E("e")), <<Mid(L3, <<L1, L3>>
 
 Segs == {"name", "Name", "NAME", "num", "list", "sub", "subs", "vals", "any", "pp", "nest", "m", "emb", "", "nosuch"}
 Paths1 == {<<s>> : s \in Segs}
-Paths2 == {<<a, b>> : a \in {"sub", "subs", "vals", "any", "pp", "Sub", "list", "name", "", "nest", "emb"}, b \in {"name", "list", "sub", "emb", "", "num", "nosuch", "subs"}}
-Paths3 == {<<a, b, c>> : a \in {"sub", "subs", "vals", "any"}, b \in {"sub", "subs", "vals"}, c \in {"name", "list", "emb", "x"}}
+Paths2 == {<<a, b>> : a \in {"sub", "subs", "vals", "any", "pp", "Sub", "list", "name", "", "nest", "emb"}, b \in {"name", "list", "sub", "emb", "", "num", "nosuch", "subs", "any", "pp", "vals"}}
+Paths3 == {<<a, b, c>> : a \in {"sub", "subs", "vals", "any"}, b \in {"sub", "subs", "vals"}, c \in {"name", "list", "emb", "x", "any", ""}}
 Paths == Paths1 \cup Paths2 \cup Paths3 \cup {<<>>}
 
 Tops == {"ptr", "val"}
